@@ -14,7 +14,12 @@ Inductive ncase :=
 | CSplit (lo hi step : Z) (out : list (list Z * list Z))
 | CRangeQ (loBits hiBits : Z) (il ih : bool) (docs : list Z) (out : list bool)
 | CEnum (start endT : list Z) (dict : list (list Z)) (out : option (list (list Z)))
-| CInterleave (a b x da db : Z).
+| CInterleave (a b x da db : Z)
+(* kind 0 = datetime field (datetime_precision_step), 1 = geo point field (geo_precision_step) *)
+| CTokensKind (kind : Z) (v : Z) (out : list (list Z))
+(* DateRangeQuery end to end: end points as the float64 bit patterns handed to the numeric searcher
+   (Int64ToFloat64 of the nanoseconds, or an infinity for an open end), document values in nanoseconds *)
+| CDateQ (loBits hiBits : Z) (il ih : bool) (docs : list Z) (out : list bool).
 
 (* insertion sort of byte strings (the harness sorts observed token sets bytewise) *)
 Fixpoint insert_bytes (t : list Z) (l : list (list Z)) : list (list Z) :=
@@ -54,6 +59,17 @@ Definition check (c : ncase) : bool :=
       end
   | CInterleave a b x da db =>
       (interleave a b =? x) && (deinterleave x =? da) && (deinterleave (Z.shiftr x 1) =? db)
+  | CTokensKind kind v out =>
+      let step := if kind =? 0 then datetime_precision_step else geo_precision_step in
+      zzlist_eqb (sort_bytes (index_tokens v step)) out
+  | CDateQ lo hi il ih docs out =>
+      let toks := fun v => index_tokens v datetime_precision_step in
+      let alltoks := flat_map toks docs in
+      let dict := fun t => existsb (bytes_eqb t) alltoks in
+      match numeric_range_terms lo hi il ih dict with
+      | Ok terms => list_eqb Bool.eqb (map (fun v => existsb (fun t => existsb (bytes_eqb t) terms) (toks v)) docs) out
+      | _ => false
+      end
   end.
 
 Definition mismatches (l : list ncase) : list nat := failing check l.
